@@ -16,7 +16,7 @@ RULE = ("per generated instance (values, numbins) the exhaustive optimum of ever
         "11-13 items with values <= 15, where O1 stays cheap, solved by cg (9 configurations), snp, rnp and ckk (<= 3 bins)")
 ASSUMPTIONS = ["O1 enumerates all sorted sum-vectors (n <= 10)", "ilp disagreements are re-solved with CBC preprocessing off; agreement then = inconclusive(solver)",
                "rnp: numbins <= 5 (numbins >= 6 is KF-rnp-k6, no value returned)"]
-FLOORS = {"quick": {"distinct_nontrivial": 3000, "cg.returns": 1000}, "thorough": {"distinct_nontrivial": 30000, "cg.returns": 10000}}
+FLOORS = {"quick": {"distinct_nontrivial": 600, "cg.returns": 1000}, "thorough": {"distinct_nontrivial": 3000, "cg.returns": 5000}}
 CLASSES = ("small", "small", "ties", "equal", "perfect", "nearperfect", "powers", "onehuge", "zeros", "kgtn", "grid", "big", "huge")
 
 
